@@ -397,6 +397,10 @@ class ModelMixin3:
                         for j, x in enumerate(inner.items):
                             items.append(x)
                             owned.append(inner.owned[j] if j < len(inner.owned) else ())
+                    elif isinstance(t, TupleV):
+                        for x in t.items:            # a tuple among the chained iterables (e.g. `()` for "nothing here")
+                            items.append(x)
+                            owned.append(())
                     else:
                         items.append(Unknown('chained element'))
                         owned.append(())
@@ -413,6 +417,17 @@ class ModelMixin3:
                 s3 = st.copy()
                 outs.append((self.exc('UnicodeDecodeError', s3, node, 'the file is not valid text in the chosen encoding'), s3))
             return outs
+        if name == 'itertools.count' and len(args) <= 2 and not kwargs:
+            # a counter object: its current value lives in the heap so that next(counter) advances it
+            start = args[0] if args else Const(0)
+            step = args[1] if len(args) > 1 else Const(1)
+            return [(Ref('list', st.new(ListE('count', 2, None, spec=(start, step, Const(False)), stages=('itertools.count',)))), st)]
+        if name in ('operator.is_not', 'operator.is_') and len(args) == 2:
+            return [(Const(b if name.endswith('is_') else not b), s) for b, s in self.identical(args[0], args[1], st, node)]
+        if name in ('operator.not_', 'operator.truth') and len(args) == 1:
+            return [(Const(b if name.endswith('truth') else not b), s) for b, s in self.truth(args[0], st, node)]
+        if name in ('operator.eq', 'operator.ne') and len(args) == 2:
+            return [((Const(b if name.endswith('eq') else not b) if not isinstance(b, _Raise()) else b), s) for b, s in self.equal(args[0], args[1], st, node)]
         if name == 'functools.partial' and args:
             return [(PartV('partial', args[0], tuple(args[1:]), tuple(sorted(kwargs.items()))), st)]
         if name in ('operator.attrgetter', 'operator.itemgetter', 'operator.methodcaller'):
@@ -693,6 +708,22 @@ class ModelMixin3:
         if name == 'iter':
             return [(a0, st)]
         if name == 'next':
+            if isinstance(a0, Ref) and a0.kind == 'list' and st.get(a0.sym).kind == 'count':
+                le0 = st.get(a0.sym)
+                cur, step, pending = le0.spec
+                # the increment is applied when the *next* value is asked for, i.e. after whatever the caller did with
+                # the previous one (an insert at that position, typically)
+                if not pending.v:
+                    st.put(a0.sym, replace(le0, spec=(cur, step, Const(True))))
+                    return [(cur, st)]
+                outs = []
+                for nv, s in self.model_binop(ast.Add(), cur, step, st, node):
+                    if isinstance(nv, Raise):
+                        outs.append((nv, s))
+                    else:
+                        s.put(a0.sym, replace(s.get(a0.sym), spec=(nv, step, Const(True))))
+                        outs.append((nv, s))
+                return outs
             if isinstance(a0, Ref) and a0.kind == 'list' and st.get(a0.sym).kind == 'lit':
                 le0 = st.get(a0.sym)
                 if le0.items:
